@@ -20,10 +20,13 @@ Proof.
   apply nth_overflow. rewrite repeat_length. assumption.
 Qed.
 
+Lemma length_nil_N : length (@nil N) = 0.
+Proof. reflexivity. Qed.
+
 Ltac len_simp :=
-  repeat rewrite ?app_length, ?firstn_length, ?skipn_length, ?repeat_length, ?length_zeros.
+  repeat rewrite ?app_length, ?firstn_length, ?skipn_length, ?repeat_length, ?length_zeros, ?length_nil_N.
 Ltac len_simp_in H :=
-  repeat rewrite ?app_length, ?firstn_length, ?skipn_length, ?repeat_length, ?length_zeros in H.
+  repeat rewrite ?app_length, ?firstn_length, ?skipn_length, ?repeat_length, ?length_zeros, ?length_nil_N in H.
 
 (* two byte lists are equal: same length, same bytes (default 0 so that zero fill is transparent) *)
 Ltac list_eq :=
@@ -32,7 +35,6 @@ Ltac list_eq :=
   | let i := fresh "i" in let Hi := fresh "Hi" in
     intros i Hi; len_simp_in Hi;
     repeat (rewrite ?nth_app, ?nth_firstn_if, ?nth_skipn', ?nth_zeros; len_simp);
-    cbn [length] in *;
     repeat cases_if; try lia; try reflexivity; try (f_equal; lia) ].
 
 Lemma wr_sem m i d : i + length d <= length m -> wr m i d = Ok (firstn i m ++ d ++ skipn (i + length d) m).
